@@ -84,14 +84,21 @@ def free_doc(k: int, suffix: str = "", prefix: str = "") -> list:
     return ([prefix] if prefix else []) + [{"v": "abcdefgh"[i]} for i in range(k)] + ([suffix] if suffix else [])
 
 
-# Partition of the first free character into disjoint classes (sharding).
-SHARDS = [
+# Partition of the first free character into disjoint classes (sharding).  Markdown-significant characters get a shard each
+# (their jobs are the expensive ones), so that the longest job stays short.
+_SINGLES = " \t\n>-+*#=`~_<|:[]()!&\\\"'"
+SHARDS = [(f"chr{ord(c)}", "{v} == " + repr(c)) for c in _SINGLES] + [
+    ("digit", "{v} in '0123456789'"),
+    ("ascii-other", "ord({v}) < 128 and {v} not in " + repr(_SINGLES + "0123456789")),
+    ("non-ascii", "ord({v}) >= 128"),
+]
+SHARDS_COARSE = [
     ("blank", "{v} in ' \\t\\n'"),
     ("container", "{v} in '>-+*'"),
     ("digit", "{v} in '0123456789'"),
     ("leaf", "{v} in '#=`~_<|:'"),
-    ("inline", "{v} in '[]()!&\\\\\"\\''"),
-    ("ascii-other", "ord({v}) < 128 and {v} not in ' \\t\\n>-+*0123456789#=`~_<|:[]()!&\\\\\"\\''"),
+    ("inline", "{v} in " + repr("[]()!&\\\"'")),
+    ("ascii-other", "ord({v}) < 128 and {v} not in " + repr(_SINGLES + "0123456789")),
     ("non-ascii", "ord({v}) >= 128"),
 ]
 
@@ -105,8 +112,8 @@ def urlish(var: str) -> str:
     return f"ord({var}) < 128 or {var} in {URL_NONASCII!r}"
 
 
-def shard_extras(var: str = "a"):
-    return [(name, expr.format(v=var)) for name, expr in SHARDS]
+def shard_extras(var: str = "a", coarse: bool = False):
+    return [(name, expr.format(v=var)) for name, expr in (SHARDS_COARSE if coarse else SHARDS)]
 
 
 # ----------------------------------------------------------------------------- units
